@@ -57,7 +57,7 @@ def name(cn):
 
 
 def make_cert(subject_cn, subject_pub, issuer_cn, issuer_key, window="valid", serial=1,
-              ca=True):
+              ca=True, sig_hash=None):
     now = NOW + CLOCK_OFFSET
     if window == "valid":
         nb, na = now - 30 * DAY, now + 365 * DAY
@@ -92,7 +92,7 @@ def make_cert(subject_cn, subject_pub, issuer_cn, issuer_key, window="valid", se
     from cryptography.hazmat.primitives.asymmetric import ed25519, ed448
     if isinstance(issuer_key, (ed25519.Ed25519PrivateKey, ed448.Ed448PrivateKey)):
         return b.sign(issuer_key, None)       # (these algorithms take no separate hash)
-    return b.sign(issuer_key, hashes.SHA256())
+    return b.sign(issuer_key, sig_hash or hashes.SHA256())
 
 
 _OTHER_KEYS = {}
@@ -202,6 +202,12 @@ def build(rng, depth=None, custom_data=None, auth_len=None, windows=None, leaf_c
     m.odd_issuer_name = rng.randrange(depth) if rng.random() < 1 / 8 else None
     m.odd_constraints = rng.choice([[False], [None], [False, True], [None, False],
                                     [True]]) if rng.random() < 1 / 8 else None
+    # one chain in eight is signed with other hashes than SHA-256 (ecdsa-with-SHA384 /
+    # SHA512 under P-256 keys), certificate by certificate: the hash is the certificate's
+    m.sig_hashes = None
+    if leaf_curve is None and rng.random() < 1 / 8:
+        m.sig_hashes = [rng.choice([hashes.SHA384, hashes.SHA512, hashes.SHA256, hashes.SHA384])
+                        for _ in range(depth)]
     for i in range(depth):
         curve = leaf_curve if (leaf_curve is not None and i == depth - 1) else None
         k = new_key(rng, curve)
@@ -216,7 +222,8 @@ def build(rng, depth=None, custom_data=None, auth_len=None, windows=None, leaf_c
             # nothing the statement mentions)
             ca_ = m.odd_constraints[i % len(m.odd_constraints)]
         c = make_cert(cn, k.public_key(), issuer_cn, issuer_key, window=windows[i],
-                      serial=10 + i, ca=ca_)
+                      serial=10 + i, ca=ca_,
+                      sig_hash=(m.sig_hashes[i]() if m.sig_hashes else None))
         m.cert_keys.append(k)
         m.certs.append(c)
         issuer_key, issuer_cn = k, cn
